@@ -21,6 +21,8 @@
 //!   R15 `for x in V.into_iter().rev()` -> `let mut t = V; while t.len() > 0 { let x = t.pop().unwrap(); .. }`
 //!   R16 `for x in SET` (named local HashSet of Copy elements, listed per function) -> `for r in SET.iter() { let x = *r; .. }`
 //!   R17 a `for` over a range / `&V` / `V.iter()` whose body uses `continue` -> counted `while` (Verus: no continue in for-loops)
+//!   R18 arm abstraction (per function, listed arms kept): other arms of the same `match` -> arbitrary result + arbitrary change of listed places
+//!   R19 `opt.or_else(|| B)` / `unwrap_or_else(|| B)` / `ok_or_else(|| E)` -> `match`
 //!   R11 reference patterns in `for` / closure parameters / `Some(&x)` -> bind + deref
 //!   RS  pinned statement replacement   (request: replace_stmt)
 //!   RE  pinned expression replacement  (request: replace_expr)
@@ -90,6 +92,12 @@ struct ItemReq {
     /// R7b: parameters `name: &T` whose T has interior mutability through locks -> `name: &mut T`
     #[serde(default)]
     mutparam: Vec<String>,
+    /// R18: in every `match` that has an arm whose pattern starts with one of these prefixes, the OTHER arms are
+    /// replaced by an arbitrary result (and an arbitrary change of the `havoc` places): partial extraction
+    #[serde(default)]
+    keeparms: Vec<String>,
+    #[serde(default)]
+    havoc: Vec<String>,
     /// R16: names of local HashSet<Copy> values iterated by value (`for x in NAME`)
     #[serde(default)]
     setiter: Vec<String>,
@@ -717,6 +725,32 @@ impl<'a> VisitMut for Rw<'a> {
                 }
             }
         }
+        if self.enabled("R19") {
+            // Option combinators with a zero-argument closure -> match
+            let mut repl: Option<Expr> = None;
+            if let Expr::MethodCall(mc) = e {
+                let name = mc.method.to_string();
+                if mc.args.len() == 1 && matches!(name.as_str(), "or_else" | "unwrap_or_else" | "ok_or_else") {
+                    if let Some(c) = closure_of(&mc.args[0]) {
+                        if c.inputs.is_empty() {
+                            let recv = &mc.receiver;
+                            let b = &c.body;
+                            let x = self.fresh("s");
+                            repl = Some(match name.as_str() {
+                                "or_else" => parse_quote!(match #recv { Some(#x) => Some(#x), None => #b }),
+                                "unwrap_or_else" => parse_quote!(match #recv { Some(#x) => #x, None => #b }),
+                                _ => parse_quote!(match #recv { Some(#x) => Ok(#x), None => Err(#b) }),
+                            });
+                        }
+                    }
+                }
+            }
+            if let Some(r) = repl {
+                *e = r;
+                self.bump("R19.option_combinator");
+                return;
+            }
+        }
         if self.enabled("R12") {
             if let Expr::MethodCall(mc) = e {
                 if mc.method == "retain" && mc.args.len() == 1 {
@@ -910,6 +944,43 @@ impl<'ast> syn::visit::Visit<'ast> for HasContinue {
             Expr::ForLoop(_) | Expr::While(_) | Expr::Loop(_) | Expr::Closure(_) => {}
             _ => syn::visit::visit_expr(self, e),
         }
+    }
+}
+
+
+/// R18: arm abstraction
+struct KeepArms {
+    keep: Vec<String>,
+    havoc: Vec<String>,
+    n: u32,
+}
+impl VisitMut for KeepArms {
+    fn visit_expr_match_mut(&mut self, m: &mut ExprMatch) {
+        let hit = |p: &Pat, keep: &Vec<String>| {
+            let t = tnorm(p);
+            keep.iter().any(|k| {
+                let k = norm(k);
+                t.starts_with(&k) && !t[k.len()..].chars().next().map(|c| c.is_alphanumeric() || c == '_').unwrap_or(false)
+            })
+        };
+        if m.arms.iter().any(|a| hit(&a.pat, &self.keep)) {
+            for a in m.arms.iter_mut() {
+                if !hit(&a.pat, &self.keep) {
+                    let hv: Vec<Stmt> = self
+                        .havoc
+                        .iter()
+                        .map(|h| -> Stmt {
+                            let id = Ident::new(h, Span::call_site());
+                            parse_quote!(vx_havoc(&mut *#id);)
+                        })
+                        .collect();
+                    a.body = Box::new(parse_quote!({ #(#hv)* vx_unmodelled() }));
+                    a.guard = None;
+                    self.n += 1;
+                }
+            }
+        }
+        visit_mut::visit_expr_match_mut(self, m);
     }
 }
 
@@ -1401,6 +1472,14 @@ fn do_fn(items: &[Item], req: &ItemReq, feats: &[String]) -> std::result::Result
     ps.visit_signature_mut(&mut sig);
     if ps.n > 0 {
         rw.counts.insert("A3.crate_paths".to_string(), ps.n);
+    }
+    if !req.keeparms.is_empty() {
+        let mut ka = KeepArms { keep: req.keeparms.clone(), havoc: req.havoc.clone(), n: 0 };
+        ka.visit_block_mut(&mut block);
+        if ka.n == 0 {
+            return Err("keeparms: no match arm was abstracted (source changed?)".into());
+        }
+        rw.counts.insert("R18.arms_abstracted".to_string(), ka.n);
     }
     let mut mk = Marker { do_loops: true, next_loop: 0, kinds: vec![], anchors: vec![], found: BTreeMap::new() };
     mk.visit_block_mut(&mut block);
